@@ -301,7 +301,7 @@ def enc_steps(steps):
 
 class Check(PropertyCheck):
     pid = "C05"
-    gen_files = ["GenAsh", "GenAshRxFn"]
+    gen_files = ["GenAsh", "GenAshRxFn", "GenAshTxFn"]
     model_imports = ["gen.GenAsh", "model.AshCodec", "model.AshRx", "model.AshHost", "model.AshRace"]
     run_expr = "run_race_case"
     case_type = "(list revent)"
